@@ -81,7 +81,7 @@ PROPERTY_META = {
         deadline_quick=300, deadline_thorough=1500, engine='E3-LPE', design_ref='5/C15',
         technique='exhaustive lattice products on the real ProlateHyperspheroid (directions, affinity, determinant, measure); full products and deviation-bounded streams of oracle answers for every informed-sampler call',
         level_text='Hyperspheroid in dimensions 2-5(6) x separations x orientations x cost factors from 1+1e-9 to 100: lattice directions through the real RNG entry point land on the focal-sum surface, '
-                   'transform is affine with |det| = product of semi-axes, measures equal the closed form (=> uniform push-forward). Direct and rejection samplers on R^2,R^3,R^4,SE(2),SE(3) with '
+                   'transform is affine with |det| = product of semi-axes, measures equal the closed form (=> uniform push-forward). Direct, rejection and ordered (batches of 3, four calls with a shrinking bound) samplers on R^2,R^3,R^4,SE(2),SE(3) with '
                    '1-2 starts x 1-2 goals: every answer combination of the first draws and all <= 2 deviations: in bounds, heuristic cost < c (>= lower bound), informed measure; the 1/K rule decided exactly.',
         level_note=LPE_NOTE + ' The empirical distribution of samples is statistical and not decided by this family.'),
     'C14': dict(
@@ -89,13 +89,13 @@ PROPERTY_META = {
         technique='exhaustive enumeration of a pose-pair lattice against the real Dubins / Reeds-Shepp spaces; independent six-word reference validated by forward simulation; curve traced through interpolate()',
         level_text='From (0,0,theta1) with headings at quadrant boundaries +-{0,1e-7,1e-3} and generic ones, to a 9x9 (thorough 17x17) position grid on [-4,4]^2 x the same headings, plus '
                    'coincident, collinear and near-degenerate targets, radii {0.5,1,2}: Dubins distance = shortest of the six canonical words; curve obeys the vehicle model (curvature, no jumps, '
-                   'motion along the heading, reversals only for Reeds-Shepp), ends at the target, has the reported length, >= Euclid; prefix law; symmetrised Dubins; Reeds-Shepp symmetric and <= Dubins.',
+                   'motion along the heading, reversals only for Reeds-Shepp), ends at the target, has the reported length, >= Euclid; prefix law; symmetrised Dubins; Reeds-Shepp symmetric and <= Dubins; the path-caching interpolate overloads traced in four parameter orders against the plain overload.',
         level_note=LPE_NOTE + ' Reeds-Shepp optimality has no independent reference.'),
     'C18': dict(
         deadline_quick=240, deadline_thorough=1500, engine='E2-HBFS', design_ref='5/C18',
         technique='exhaustive enumeration of all operation sequences up to a depth on the real termination conditions against a reference model (virtual clock); the periodic/threaded form under the thread-schedule explorer',
-        level_text='Every sequence up to depth 6-8 over eval / predicate flips / terminate (condition and operands) for 10 condition shapes (plain, or/and nestings over shared operands, always, '
-                   'never); IterationTerminationCondition(n<=4) incl. converted copies, reset; timed conditions under an interposed virtual clock; exact-solution condition; cost convergence over all '
+        level_text='Every sequence up to depth 6-8 over eval / predicate flips / terminate (condition and operands) for 12 condition shapes (plain, or/and nestings over shared operands, always, '
+                   'never, evaluation period of exactly 0); IterationTerminationCondition(n<=4) incl. converted copies, reset; timed conditions (one- and two-argument form, checking interval 0) under an interposed virtual clock; exact-solution condition; cost convergence over all '
                    'cost sequences of length <= 5-6 with windows 1-3 and two thresholds.',
         level_note='Trusted: the reference models, the clock_gettime interposition. Sequential part only in this harness; terminate() from another thread and the periodic evaluation thread are explored in C19\'s schedule explorer.'),
     'C17': dict(
@@ -117,7 +117,7 @@ PROPERTY_META = {
         deadline_quick=400, deadline_thorough=1700, engine='E2-HBFS', design_ref='5/C20',
         technique='exhaustive enumeration of RNG-API histories, each executed in fresh processes; bounded differential enumeration of planner runs across address-layout and heap-content environments',
         level_text='RNG API: every history up to depth 5/6 after setSeed(s), s in {1,2,12345}, executed twice in fresh processes and per generator against a solo process (i-th generator depends only on '
-                   'seed and i; reseeding reproduces a fresh RNG(localSeed)). Planners with the real generator: 37 single-threaded planners (incl. 4 multilevel) x continuous / tie-laden / SE(2) problems x seeds x budgets, '
+                   'seed and i; reseeding reproduces a fresh RNG(localSeed)). Planners with the real generator: 59 planner configurations (37 single-threaded planners incl. 4 multilevel, 19 option variants, VFRRT, TSRRT, XXL) x continuous / tie-laden / SE(2) / R^4-with-a-pinned-coordinate problems x seeds x budgets, '
                    'each point in 5 processes differing in ASLR, heap offset and fresh-heap byte pattern; results must be identical.',
         level_note='Trusted: fork/exec isolation, the observation hash (status, flags, solution path bits). The seed, problem and budget quantifiers are finite sets; layouts are 5 environments, not all.'),
     'C04': dict(
@@ -144,7 +144,7 @@ PROPERTY_META = {
     'C01': dict(
         deadline_quick=420, deadline_thorough=1700, engine='E1-DBE', design_ref='5/C01',
         technique='deviation-bounded exhaustive exploration of every random answer and state sample of the real planners (choice oracle), independent dense path oracle on every execution; the always-multi-threaded planners (PRM, PRM*, SPARS, SPARStwo) under ALL thread schedules with <= P preemptions (E4 schedule explorer) with the same oracle',
-        level_text='37 single-threaded geometric and multilevel planners (incl. QRRT, QRRT*, QMP, QMP* with the level sequence R^2 <- SE(2) on SE(2) problems; reduced configuration set for these in the quick tier), 19 option variants of them (r-disc / no delayed collision checking / pruning / rejection sampling / intermediate states / JIT sampling ... : the non-default branches of solve()) and VFRRT, TSRRT, XXL x 16+ configurations (incl. three start states, the first invalid) (9 maps incl. corner-cut diagonal, U-trap, corridor, enclosed goal, obstacle on start/goal; R^2, SE(2), Dubins, '
+        level_text='37 single-threaded geometric and multilevel planners (incl. QRRT, QRRT*, QMP, QMP* with the level sequence R^2 <- SE(2) on SE(2) problems; reduced configuration set for these in the quick tier), 19 option variants of them (r-disc / no delayed collision checking / pruning / rejection sampling / intermediate states / JIT sampling ... : the non-default branches of solve()) and VFRRT, TSRRT, XXL x 16+ configurations (incl. three start states, the first invalid; a coarse default projection whose cells straddle obstacle boundaries for the projection-based planners) (9 maps incl. corner-cut diagonal, U-trap, corridor, enclosed goal, obstacle on start/goal; R^2, SE(2), Dubins, '
                    'Reeds-Shepp; goal state/states/unsampleable region; thresholds, ranges, resolutions): every execution with <= D deviations among the first N choice points plus the full '
                    'product over the first state samples, each on fresh objects with termination at a fixed evaluation index; crashes/hangs isolated in forked children and replayed alone. '
                    'PRM, PRM*, SPARS, SPARStwo: 3 maps x budgets {8,34} (thorough {3,8,13,21,34,55}) x solve + continued solve x every schedule with <= 1 (thorough 2) preemptions.',
@@ -154,7 +154,7 @@ PROPERTY_META = {
         technique='exhaustive products of boundary-value inputs for enforceBounds; for every sampler call, full product of oracle answers over the first draws plus all <=2-deviation answer streams (RNG hook H1)',
         level_text='enforceBounds on 27 space configurations over lattice states and products of wild per-coordinate alphabets (in bounds afterwards, unchanged if in bounds, idempotent). '
                    'Every default/subspace/compound/wrapper sampler x uniform/near/Gaussian x centres x distance scales, with every primitive random draw answered by the enumerated oracle '
-                   '(u=0, u=1-2^-53, |z|=8 included); six valid-state samplers on an obstacle world with attempts 1,2,5; the first 8192 (thorough 65536) samples of the deterministic Halton samplers for R^3, SE(2), SO(2) under five bounds.',
+                   '(u=0, u=1-2^-53, |z|=8 included); six valid-state samplers on an obstacle world with attempts 1,2,5; the first 8192 (thorough 65536) samples of the deterministic Halton samplers for R^3, SE(2), SO(2) under five bounds; the precomputed-list sampler (index ranges x uniform/near/Gaussian x full answer products). The valid-sampler world has a validity limit unrelated to obstacles, so invalid states with a large clearance exist.',
         level_note=LPE_NOTE + ' Randomness is owned through hook H1 (RNG primitives), so the library arithmetic on top of the primitives is what runs.'),
     'C09': dict(
         deadline_quick=300, deadline_thorough=1500, engine='E3-LPE', design_ref='5/C09',
